@@ -138,6 +138,77 @@ def gen_value(r, depth=0):
     return d
 
 
+# ---------------------------------------------------------------------------- the KIND of iterable that carries an API argument
+# The pairing API is declared over Iterable[...]: besides list/set/tuple a caller may pass any re-iterable object (deque, dict
+# view, a class with only __iter__) or a ONE-SHOT iterable (generator, iter(...), map / chain / zip object) whose items are gone
+# after the first complete walk (Model/RequestArgs.v: akind = Reiterable | OneShot).
+ONE_SHOT_KINDS = ("gen", "iter", "map", "chain", "zip")
+REITER_KINDS = ("list", "tuple", "deque", "dictvalues", "bag")
+SET_KINDS = ("set", "frozenset", "dictkeys")                   # ids only: iteration order is the container's own
+ARG_KINDS = REITER_KINDS + ONE_SHOT_KINDS                      # order-preserving kinds (writes, subscriptions)
+READ_KINDS = ARG_KINDS + SET_KINDS
+
+
+class Bag:
+    """An Iterable and nothing more: no __len__, no __getitem__; every __iter__ call starts afresh."""
+
+    def __init__(self, items):
+        self._items = list(items)
+
+    def __iter__(self):
+        return iter(list(self._items))
+
+    def __getattr__(self, name):
+        raise AttributeError("harness Bag has only __iter__ (touched %r)" % name)
+
+
+def wrap(kind, items):
+    """The caller's argument: `items` carried by an iterable of the given kind."""
+    import collections
+    items = list(items)
+    if kind == "list":
+        return items
+    if kind == "tuple":
+        return tuple(items)
+    if kind == "set":
+        return set(items)
+    if kind == "frozenset":
+        return frozenset(items)
+    if kind == "dictkeys":
+        return dict.fromkeys(items).keys()
+    if kind == "deque":
+        return collections.deque(items)
+    if kind == "dictvalues":
+        return dict(enumerate(items)).values()
+    if kind == "bag":
+        return Bag(items)
+    if kind == "gen":
+        return (x for x in items)
+    if kind == "iter":
+        return iter(items)
+    if kind == "map":
+        return map(tuple, items)
+    if kind == "chain":
+        return itertools.chain(items[:1], items[1:])
+    if kind == "zip":
+        return zip(*[list(col) for col in zip(*items)])
+    raise ValueError(kind)
+
+
+def arg_kind(op):
+    """Name of the iterable kind an op passes to the pairing API ('-' for calls that take no iterable)."""
+    k = op[0]
+    if k == "get_characteristics":
+        return op[2] if isinstance(op[2], str) else op[2].__name__
+    if k in ("put_characteristics", "subscribe", "unsubscribe"):
+        return op[2] if len(op) > 2 else "list"
+    return "-"
+
+
+def model_kind(op):
+    return "one" if arg_kind(op) in ONE_SHOT_KINDS else "re"
+
+
 # ---------------------------------------------------------------------------- advertised text vs kernel text of one address
 ZONES = {"7": "eth0", "9": "wlan0"}        # scripted if_indextoname: zone index -> interface name
 
@@ -352,13 +423,13 @@ async def do_op(obj, op):
     if k == "list_accessories":
         return await obj.list_accessories_and_characteristics()
     if k == "get_characteristics":
-        return await obj.get_characteristics(op[2](op[1]))
+        return await obj.get_characteristics(wrap(op[2], op[1]) if isinstance(op[2], str) else op[2](op[1]))
     if k == "put_characteristics":
-        return await obj.put_characteristics(op[1])
+        return await obj.put_characteristics(wrap(op[2], op[1]) if len(op) > 2 else op[1])
     if k == "subscribe":
-        return await obj.subscribe(op[1])
+        return await obj.subscribe(wrap(op[2], op[1]) if len(op) > 2 else op[1])
     if k == "unsubscribe":
-        return await obj.unsubscribe(op[1])
+        return await obj.unsubscribe(wrap(op[2], op[1]) if len(op) > 2 else op[1])
     if k == "identify":
         return await obj.identify()
     if k == "list_pairings":
@@ -609,15 +680,16 @@ def secure_ops(r, n):
         k = r.random()
         if k < 0.22:
             ids = rand_ids(r)
-            ops.append(("get_characteristics", ids, r.choice([list, set, tuple, iter])))
+            ops.append(("get_characteristics", ids, r.choice([list, set, tuple, iter]) if r.random() < 0.5 else r.choice(READ_KINDS)))
         elif k < 0.5:
             cs = [writable(r) + (gen_value(r),) for _ in range(r.choice([1, 1, 2, 3, 6]))]
-            ops.append(("put_characteristics", cs))
+            ops.append(("put_characteristics", cs) if r.random() < 0.4 else ("put_characteristics", cs, r.choice(ARG_KINDS)))
         elif k < 0.68:
             ids = rand_ids(r)
             if r.random() < 0.5:
                 ids.sort()
-            ops.append((r.choice(["subscribe", "unsubscribe"]), ids))
+            api = r.choice(["subscribe", "unsubscribe"])
+            ops.append((api, ids) if r.random() < 0.4 else (api, ids, r.choice(ARG_KINDS)))
         elif k < 0.72:
             ops.append(("identify",))
         elif k < 0.77:
@@ -811,9 +883,9 @@ def gather_op(r, mode):
         elif k < 0.4:
             subs.append(("get_characteristics", rand_ids(r, r.choice([1, 2, 5])), r.choice([list, set])))
         elif k < 0.7:
-            subs.append(("put_characteristics", [writable(r) + (gen_value(r),) for _ in range(r.choice([1, 2]))]))
+            subs.append(("put_characteristics", [writable(r) + (gen_value(r),) for _ in range(r.choice([1, 2]))], r.choice(ARG_KINDS)))
         elif k < 0.85:
-            subs.append((r.choice(["subscribe", "unsubscribe"]), sorted(rand_ids(r, 3))))
+            subs.append((r.choice(["subscribe", "unsubscribe"]), sorted(rand_ids(r, 3)), r.choice(REITER_KINDS)))
         else:
             subs.append(r.choice([("list_accessories",), ("image", r.choice(AIDS), 640, 480), ("get", "/accessories")]))
     return ("gather", subs)
@@ -838,6 +910,42 @@ def gen_concurrent(tier, r):
         for _ in range(r.choice([2, 4, 8])):
             ops.append(gather_op(r, mode) if r.random() < 0.7 else (secure_ops(r, 1)[1] if mode == "secure" else plain_ops(r, 1)[0]))
         scs.append(single(mode, host, r.choice([80, 5001]), ops))
+    return scs
+
+
+def gen_arg_kinds(tier, r):
+    """Every kind of iterable x every pairing API call that takes one, on ONE live encrypted pairing: the request written must
+    be the canonical request for what the caller asked, whatever carried it (one-shot: generator, iter, map, chain, zip;
+    re-iterable: list, tuple, deque, dict view, bare Iterable; sets for reads).  Sizes 0, 1, 2 and several aids."""
+    scs = []
+    for hk, host in (HOSTS[0], HOSTS[3], HOSTS[8]):
+        ops = [("list_accessories",)]
+        for kind in READ_KINDS:
+            ops.append(("get_characteristics", [(1, 9), (1, 10), (2, 3)], kind))
+            if kind in SET_KINDS:
+                continue
+            ops.append(("put_characteristics", [(1, 9, True), (1, 10, 40)], kind))
+            ops.append(("put_characteristics", [(2, 3, "a b")], kind))
+            ops.append(("subscribe", [(1, 9), (1, 10), (2, 3), (1, 11)], kind))
+            ops.append(("unsubscribe", [(1, 9), (2, 3)], kind))
+            ops.append(("put_characteristics", [(1, 9, 1), (2, 10, [1, {"k": None}]), (10, 255, "x")], kind))
+        ops.append(("put_characteristics", [], "list"))
+        ops.append(("put_characteristics", [], "gen"))
+        scs.append(single("secure", host, 5001, ops))
+    pool = [(a, i) for a in AIDS for i in IIDS if i not in (1, 2)]
+    for _ in range(12 if tier == "quick" else 300):
+        hk, host = r.choice(HOSTS)
+        ops = [("list_accessories",)]
+        for _ in range(r.choice([4, 8, 16])):
+            k = r.random()
+            if k < 0.3:
+                ops.append(("get_characteristics", r.sample(pool, r.choice([1, 2, 5])), r.choice(READ_KINDS)))
+            elif k < 0.7:
+                ops.append(("put_characteristics", [p + (gen_value(r),) for p in r.sample(pool, r.choice([1, 2, 2, 4]))],
+                            r.choice(ARG_KINDS)))
+            else:
+                ops.append((r.choice(["subscribe", "unsubscribe"]), sorted(r.sample(pool, r.choice([1, 3, 4]))), r.choice(ARG_KINDS)))
+        scs.append(single("secure", host, r.choice([80, 5001]), ops))
     return scs
 
 
@@ -895,6 +1003,7 @@ def gen_scenarios(tier, r):
     scs += gen_pollers(tier, r)
     scs += gen_concurrent(tier, r)
     scs += gen_misc_entry(tier, r)
+    scs += gen_arg_kinds(tier, r)
     # large reads (a bridge with many accessories): one read of 150 / 200 / 480 / 1000 ids - ONE request, ids joined by commas
     big = [150, 200, 480] if tier == "quick" else [150, 200, 480, 1000, 165, 330, 2000]
     for j, n_ids in enumerate(big):
@@ -917,6 +1026,35 @@ def gen_scenarios(tier, r):
                 ops.append(("put_characteristics", [(1, 9, w["characteristics"][0]["value"])]))
         scs.append(single("secure", host, 5001, ops))
         scs.append(single("plain", host, 5001, [op for op in ops if op[0] == "put_json"]))
+    # sizes past the limits nobody generated so far: requests of 65535 / 65536 / 65537 bytes (64 frames and one byte more), 128
+    # frames exactly, ~300 kB (one writelines of > 512 items; the frame counter passes 255 INSIDE one call), Content-Length
+    # going from 5 to 6 digits; and > 256 requests on ONE encrypted connection (the counter passes 255 ACROSS calls)
+    def sized(host, total, make):
+        k0 = total - len(ref_render("PUT", b"/characteristics", host, "json", G.ref_compact(make(0))))
+        for k in range(max(0, k0 - 2), k0 + 8):
+            if len(ref_render("PUT", b"/characteristics", host, "json", G.ref_compact(make(k)))) == total:
+                return make(k)
+        return None
+    big_hosts = (HOSTS[2], HOSTS[6]) if tier == "quick" else (HOSTS[2], HOSTS[6], HOSTS[9], HOSTS[0])
+    for j, (hk, host) in enumerate(big_hosts):
+        totals = (65535, 65536, 65537, 131072) if tier == "quick" else (65535, 65536, 65537, 66560, 131072, 262144, 262145)
+        ops = [("list_accessories",)]
+        for total in totals[j % 2:] if tier == "quick" else totals:
+            v = sized(host, total, lambda k: {"v": "a" * k})
+            if v is not None:
+                ops.append(("put_json", "/characteristics", v))
+        ops.append(("put_characteristics", [(1, 9, "c" * (300000 if tier == "quick" else 1100000))], r.choice(ARG_KINDS)))
+        ops.append(("get_characteristics", [(1, 9)], list))
+        scs.append(single("secure", host, 5001, ops))
+        pl = [("put", "/characteristics", bytes((k * 7 + 3) % 256 for k in range(n)), r.choice([CT_JSON, CT_TLV]))
+              for n in ((65535, 65536, 99999, 100000) if tier == "quick" else (65535, 65536, 65537, 99999, 100000, 999999, 1000000))]
+        scs.append(single("plain", host, 5001, pl + [op for op in ops if op[0] == "put_json"][:2] + [("get", "/accessories")]))
+    for j in range(1 if tier == "quick" else 4):
+        hk, host = HOSTS[(4 + 3 * j) % len(HOSTS)]
+        ops = [("list_accessories",)] + [("get", TARGETS[k % 3]) for k in range(250 + 20 * j)]
+        ops += [("put_json", "/characteristics", {"v": "d" * 2500}), ("get_characteristics", [(1, 9), (2, 3)], "gen"),
+                ("put_characteristics", [(1, 9, "e" * 1500)], "gen")]
+        scs.append(single("secure", host, 5001, ops))
     # payloads the JSON encoder refuses, given to the API on a live object: must raise, nothing written; the next call is fine
     for hk, host in (HOSTS[0], HOSTS[5]):
         scs.append(single("secure", host, 5001, [
@@ -1226,6 +1364,16 @@ def mutate(r, base: bytes):
 # ---------------------------------------------------------------------------- run
 def run(ctx):
     tier, seed = ctx["tier"], ctx["seed"]
+    # the extracted model is structurally recursive (not tail recursive): requests of several hundred kB need more than the
+    # default 8 MB stack in the driver process, which inherits this limit
+    try:
+        import resource
+        soft, hard = resource.getrlimit(resource.RLIMIT_STACK)
+        want = 1 << 30
+        if soft != resource.RLIM_INFINITY and soft < want:
+            resource.setrlimit(resource.RLIMIT_STACK, (want if hard == resource.RLIM_INFINITY else min(want, hard), hard))
+    except Exception:  # noqa
+        pass
     drv = Driver(ctx["driver"])
     cov = Coverage("req: one case per request that reached the transport, distinct by (host, bytes); non-trivial = has a body "
                    "or a query string; json: distinct value, non-trivial = contains a string or a container; "
@@ -1286,14 +1434,24 @@ def run(ctx):
                 ids = lenient_ids(exs[0]["target"])
                 if ids is not None:
                     jobs.append((si, ri, 0, "api-exact", q(" ".join(["get", hosth] + ["%d.%d" % p for p in ids])), None))
+                    if isinstance(op[2], str):
+                        jobs.append((si, ri, 0, "api-exact", q(" ".join(["getk", model_kind(op), hosth] + ["%d.%d" % p for p in ids])), None))
             elif op[0] == "put_characteristics" and len(exs) == 1:
-                toks = ["put", hosth, str(len(op[1]))]
+                toks = [hosth, str(len(op[1]))]
                 for a, i, v in op[1]:
                     toks += [str(a), str(i)] + jtoks(v)
-                jobs.append((si, ri, 0, "api-canon", q(" ".join(toks)), None))
+                jobs.append((si, ri, 0, "api-canon", q(" ".join(["put"] + toks)), None))
+                if len(op) > 2:      # the model of the call on an argument of THIS kind (Model/RequestArgs.v)
+                    jobs.append((si, ri, 0, "api-canon", q(" ".join(["putk", model_kind(op)] + toks)), None))
             elif op[0] in ("subscribe", "unsubscribe"):
-                jobs.append((si, ri, None, "api-sub", q(" ".join(["sub", hosth, "1" if op[0] == "subscribe" else "0"]
-                                                                 + ["%d.%d" % p for p in op[1]])), None))
+                toks = [hosth, "1" if op[0] == "subscribe" else "0"] + ["%d.%d" % p for p in op[1]]
+                if len(op) > 2 and model_kind(op) == "one":
+                    # two walks: the model says nothing is written; a tree that lists the argument first writes the full groups
+                    jobs.append((si, ri, None, "api-sub-oneshot", q(" ".join(["subk", "one"] + toks)), q(" ".join(["subk", "re"] + toks))))
+                else:
+                    jobs.append((si, ri, None, "api-sub", q(" ".join(["sub"] + toks)), None))
+                    if len(op) > 2:
+                        jobs.append((si, ri, None, "api-sub", q(" ".join(["subk", "re"] + toks)), None))
             elif op[0] == "get" and len(exs) == 1:
                 jobs.append((si, ri, 0, "api-exact", q(" ".join(["conn", "get", hosth, hx(op[1].encode("utf-8"))])), None))
             elif op[0] in ("put", "post") and len(exs) == 1:
@@ -1332,8 +1490,10 @@ def run(ctx):
 
     # --- per-record checks that need no model answer
     n_req = 0
+    oneshot_sub = {"nothing-written": 0, "requests-written": 0}
     for si, (sc, res) in enumerate(zip(scs, results)):
         call_tail = {}          # (connection, transport call index) -> the request that ENDED in that call
+        req_ord = {}            # connection -> ordinal of the current request on it
         if res["errors"]:
             add("harness:" + res["errors"][0], "accessory could not decode the encrypted frames: " + res["errors"][0], False,
                 stream="req", hosts=sc["hosts"], scenario_json=enc(sc))
@@ -1388,8 +1548,15 @@ def run(ctx):
                         f"after '{rec['via']}' the re-subscribe requests of connection_made do not ask for exactly the subscribed "
                         f"characteristics ({bad}): subscribed {rec.get('resub')!r}"[:400], True,
                         **replay(sc, rec, reason=bad, subscribed=repr(rec.get("resub"))[:400]))
+            elif api in ("subscribe", "unsubscribe") and arg_kind(op) in ONE_SHOT_KINDS and not exs:
+                # the code walks the argument twice (set(...), then groupby): a one-shot argument is exhausted and NO request
+                # is written (theorem update_subscriptions_one_shot_writes_nothing); C09 speaks about requests that are sent
+                oneshot_sub["nothing-written"] += 1
+                asked_why = []
             else:
                 asked = rec["asked"]
+                if api in ("subscribe", "unsubscribe") and arg_kind(op) in ONE_SHOT_KINDS:
+                    oneshot_sub["requests-written"] += 1
                 if len(exs) != len(asked):
                     add(f"wrong-request-count:{api}", f"{api}: {len(exs)} requests on the wire, the call asks for {len(asked)}",
                         False, **replay(sc, rec, asked=len(asked)))
@@ -1441,23 +1608,33 @@ def run(ctx):
                             f"call asked for ({asked_why[qi]}): asked {repr(rec['op'][1])[:200]}, sent {ex['target'][:200]!r}",
                             True, **replay(sc, rec, qi, reason=asked_why[qi], held=rec["held"], asked_now=repr(rec["op"][1])[:400]))
                     else:
+                        ak = arg_kind(op)
                         add(f"wrong-request:{asked_why[qi]}:{api}", f"{api}: the request on the wire is not what the call asked for "
-                            f"({asked_why[qi]})", True, **replay(sc, rec, qi, reason=asked_why[qi]))
+                            f"({asked_why[qi]})" + ("" if ak in ("-", "list") else f"; the argument {repr(op[1])[:120]} was passed as a "
+                            f"{'one-shot ' if ak in ONE_SHOT_KINDS else ''}{ak} object, sent body {ex['body'][:120]!r}"), True,
+                            **replay(sc, rec, qi, reason=asked_why[qi], argument_container=ak))
                 body = ex["body"]
+                req_ord[cap.conn] = req_ord.get(cap.conn, -1) + 1
                 cov.case("q" + peer + hx(cap.raw), bool(body) or b"?" in ex["target"],
                          sample=(dict(stream="req", mode=sc["mode"], host=peer, via=rec["via"], connection=cap.conn, api=api,
                                       request=cap.raw[:300].decode("latin1")) if n_req % 401 == 1 else None),
                          req_api=api, req_mode=sc["mode"], req_host=host_kind(peer), req_method=ex["method"],
                          req_advertised_spelling=",".join(sc.get("spelling", ["as-kernel"])),
                          req_argument=("caller-held, updated in place" if rec.get("held") else "fresh"),
+                         req_arg_container=(arg_kind(op) if api in ("get_characteristics", "put_characteristics", "subscribe",
+                                                                    "unsubscribe") else "-"),
                          req_reached_via=rec["via"], req_connection_ordinal=min(cap.conn, 5),
                          req_body_kind=ex["kind"],
                          req_body_len=(len(body) if len(body) < 4 else 1 << (len(body).bit_length())),
                          req_calls_per_request=len(cap.calls),
+                         req_total_len=("<1024" if len(cap.raw) < 1024 else ">=%d" % (1 << (len(cap.raw).bit_length() - 1))),
+                         req_writelines_items=(lambda n_: n_ if n_ < 3 else ">=%d" % (1 << (n_.bit_length() - 1)))(
+                             len(res["wire"][cap.conn]["calls"][cap.calls[0]]) if len(cap.calls) == 1 else 0),
+                         req_ordinal_on_connection=(lambda n_: "<256" if n_ < 256 else ">=256")(req_ord.setdefault(cap.conn, 0)),
                          req_ids=(len(lenient_ids(ex["target"]) or []) if api == "get_characteristics" else "-"))
     # --- model answers
     sub_seen = set()
-    for (si, ri, qi, what, li, _) in jobs:
+    for (si, ri, qi, what, li, li2) in jobs:
         sc, rec = scs[si], results[si]["records"][ri]
         api = rec["op"][0]
         ans = answers[li] if li is not None else "unmodelled-method"
@@ -1485,6 +1662,14 @@ def run(ctx):
             if not rec["oracle"][qi] and not canon_equal(unhx(ans[3:]), cap.raw):
                 add(f"{api}:api-model-mismatch", f"{api}: the model's write payload differs (order-insensitively) from the bytes sent",
                     False, model=ans[:600], **replay(sc, rec, qi), broken="correspondence write_payload <-> put_characteristics")
+        elif what == "api-sub-oneshot":
+            alts = [[unhx(h) for h in answers[x].split(" ")[1:]] for x in (li, li2)]
+            ok = any(len(m) == len(rec["requests"]) and all(canon_equal(a, c.raw) for a, c in zip(m, rec["requests"])) for m in alts)
+            if not ok and not any(rec.get("oracle", [])):
+                add(f"{api}:api-model-mismatch:one-shot-argument", f"{api}({arg_kind(rec['op'])}): {len(rec['requests'])} requests; the "
+                    f"model writes none (the argument is exhausted by set(...) before groupby) or, listed first, {len(alts[1])}",
+                    False, model=answers[li2][:600], **replay(sc, rec),
+                    broken="correspondence pairing_update_subscriptions <-> subscribe/unsubscribe + _update_subscriptions")
         elif what == "api-sub":
             model_reqs = [unhx(h) for h in ans.split(" ")[1:]]
             ok = len(model_reqs) == len(rec["requests"]) and all(
@@ -1495,10 +1680,15 @@ def run(ctx):
                     broken="correspondence api_update_subscriptions <-> _update_subscriptions")
     # --- history level: the model machine run on the session's event history vs the recorded transport calls
     n_trace = n_trace_req = 0
+    import collections as _cc
+    ctr_hist = _cc.Counter()
     for si, (li, expect, toks) in traces.items():
         sc, res = scs[si], results[si]
         out = answers[li].split(" ")
         n_trace += 1
+        if out[-1].startswith("ctr:"):
+            fc = int(out[-1][4:])
+            ctr_hist["0" if fc == 0 else ("1..255" if fc < 256 else ("256..1023" if fc < 1024 else ">=1024"))] += 1
         if len(out) != len(expect) + 1:
             add("trace:model-mismatch:length", f"model run of the session history gave {len(out) - 1} observations for "
                 f"{len(expect)} requests: {answers[li][:200]}", False, events=toks[:60], scenario_json=enc(sc))
@@ -1534,8 +1724,10 @@ def run(ctx):
                     counter_before=parts[2], **replay(sc, rec, qi))
     cov.extra["resubscribe_requests_checked"] = sum(max(0, len(rec["requests"]) - 2) for res in results for rec in res["records"]
                                                     if rec["op"][0] == "pair_verify")
+    cov.extra["one_shot_subscribe_calls"] = dict(oneshot_sub)
     cov.extra["concurrent_call_groups"] = sum(1 for res in results for rec in res["records"] if rec["op"][0] == "gather")
     cov.extra["requests_while_disconnected"] = sum(1 for res in results for rec in res["records"] if rec.get("expect_exc"))
+    cov.extra["session_final_frame_counter"] = dict(ctr_hist)
     cov.extra["session_histories_replayed_in_model"] = n_trace
     cov.extra["session_history_requests"] = n_trace_req
 
